@@ -372,6 +372,18 @@ theorem watchers_for_all_topics (c : Cfg) (s : St) (h : Reachable c s) (hp : s.p
 assignment -/
 theorem watchers_match_source : KV.Gen.Group.watcherRange = "Topics" := by decide
 
+/-! ### the coordinator that is dialled is the one FindCoordinator named -/
+
+/-- regenerated: the address of the second `connect` in `coordinator()` is `net.JoinHostPort` of the answer's
+`Coordinator.Host` and `Coordinator.Port` (in this order) -/
+theorem coordinator_dial_matches_source : KV.Gen.Group.coordinatorDial = ["JoinHostPort", "Host", "Port"] := by decide
+
+/-- the dialled address names the coordinator's host and port (plain host names / IPv4; the driver compares
+`coordinatorAddress` with what the library dials, IPv6 literals included) -/
+theorem coordinator_address_plain (host : String) (port : Int) (h : host.contains ':' = false) :
+    coordinatorAddress host port = host ++ ":" ++ toString port := by
+  simp [coordinatorAddress, h]
+
 /-! ### a generation only after a successful OffsetFetch (hypothesis of C03 `start_at_committed`) -/
 
 /-- a failed OffsetFetch — any error class — makes `nextGeneration` return the error: no generation can be created next -/
